@@ -85,25 +85,6 @@ Proof.
     unfold att_ok, pc_of, ctx_of; cbn; rewrite upd_same; cbn; auto.
 Qed.
 
-Lemma respects_app : forall g tr1 tr2 s,
-  respects g s (tr1 ++ tr2) ->
-  respects g s tr1 /\ forall s1, run s tr1 = Some s1 -> respects g s1 tr2.
-Proof.
-  induction tr1 as [|l tr1 IH]; intros tr2 s H; cbn in *.
-  - split; [exact I|]. intros s1 [= <-]. exact H.
-  - destruct H as [H1 H2]. destruct (step s l) as [s0|] eqn:Hs.
-    + destruct (IH tr2 s0 H2) as [A B]. split; [split; assumption|]. exact B.
-    + split; [split; [assumption|exact I]|]. intros s1 Hc. discriminate.
-Qed.
-
-Lemma run_app : forall tr1 tr2 s s',
-  run s (tr1 ++ tr2) = Some s' -> exists s1, run s tr1 = Some s1 /\ run s1 tr2 = Some s'.
-Proof.
-  induction tr1 as [|l tr1 IH]; intros tr2 s s' H; cbn in *.
-  - exists s. split; [reflexivity|exact H].
-  - destruct (step s l) as [s0|]; [|discriminate]. apply IH. exact H.
-Qed.
-
 (** the outcome of an attempt: in a fault-free run of well-formed programs, from the Invoke of an
     acquisition of kind k on Locker L by thread t up to (not including) its Return, the thread is
     inside that attempt and what it is about to return is explained by the state *)
